@@ -293,8 +293,61 @@ func genC11(c *Ctx) {
 	} else {
 		c.Refuse("index: (*Writer).Close not found")
 	}
+	// ---- persisterLoop's error branch after persistSnapshot: ourSnapshot.Close() exactly once on each path
+	// (the `err == segment.ErrClosed` path that breaks out, and the retry path that continues)
+	closesClosedPath, closesRetryPath := -1, -1
+	if pl := idx.Func("Writer.persisterLoop"); pl != nil {
+		isSnapClose := func(st ast.Stmt) bool {
+			n := 0
+			ast.Inspect(st, func(m ast.Node) bool {
+				if ce, ok := m.(*ast.CallExpr); ok && selName(ce.Fun) == "ourSnapshot.Close" {
+					n++
+				}
+				return true
+			})
+			return n > 0
+		}
+		ast.Inspect(pl.Body, func(m ast.Node) bool {
+			is, ok := m.(*ast.IfStmt)
+			if !ok || closesClosedPath >= 0 {
+				return true
+			}
+			be, ok := is.Cond.(*ast.BinaryExpr)
+			if !ok || be.Op != token.NEQ || selName(be.X) != "err" || selName(be.Y) != "nil" || len(is.Body.List) == 0 {
+				return true
+			}
+			if br, ok := is.Body.List[len(is.Body.List)-1].(*ast.BranchStmt); !ok || br.Tok != token.CONTINUE {
+				return true
+			}
+			before, nested, total, seenNested := 0, 0, 0, false
+			for _, st := range is.Body.List {
+				if sub, ok := st.(*ast.IfStmt); ok {
+					if sb, ok := sub.Cond.(*ast.BinaryExpr); ok && sb.Op == token.EQL && strings.HasSuffix(selName(sb.Y), "ErrClosed") {
+						seenNested = true
+						for _, s2 := range sub.Body.List {
+							if isSnapClose(s2) {
+								nested++
+							}
+						}
+						continue
+					}
+				}
+				if isSnapClose(st) {
+					total++
+					if !seenNested {
+						before++
+					}
+				}
+			}
+			closesClosedPath, closesRetryPath = before+nested, total
+			return true
+		})
+	} else {
+		c.Refuse("index: persisterLoop not found")
+	}
 	ncm, cmErr := loadSnapshotsCommitFacts(c, idx)
 	fmt.Fprintf(&b, "/-- loadSnapshots: number of deletionPolicy.Commit calls, and whether one of them lies in an error branch -/\ndef loadCommitCalls : Nat := %d\ndef loadCommitOnErr : Bool := %s\n", ncm, leanBool(cmErr))
+	fmt.Fprintf(&b, "/-- persisterLoop, error branch after persistSnapshot: number of ourSnapshot.Close() calls on the ErrClosed path and on the retry path -/\ndef errBranchClosesClosedPath : Int := %d\ndef errBranchClosesRetryPath : Int := %d\n", closesClosedPath, closesRetryPath)
 	fmt.Fprintf(&b, "/-- Writer.Close runs close() inside s.closeOnce.Do (closeOnce a sync.Once field of Writer) and returns only after it -/\ndef closeViaOnce : Bool := %s\n", leanBool(closeViaOnce))
 	fmt.Fprintf(&b, "/-- Writer.close: number of return statements between asyncTasks.Wait() and directory.Unlock() -/\ndef closeReturnsBeforeUnlock : Nat := %d\n", closeReturnsBeforeUnlock)
 	fmt.Fprintf(&b, "/-- mergeSegmentBases: where the reference from loadSegment(newSegmentID) is released (seg.Close / seg.DecRef) -/\ndef memMergeReleases : List String := %s\n", leanStrs(memMergeReleases))
